@@ -26,6 +26,22 @@ theorem cropped_iter_toList (cs : List Color) (size : Sz) (cropArea : Rect) :
           + (CropIt.cropOf size cropArea).tl.x.toNat)).take (CropIt.cropOf size cropArea).size.w) :=
   croppedList_eq_spec cs size cropArea
 
+/-- The `as usize` casts of the crop's top-left corner in `Cropped::new` never see a negative
+value. -/
+theorem cropped_iter_casts_safe (size : Sz) (cropArea : Rect) :
+    0 ≤ (CropIt.cropOf size cropArea).tl.x ∧ 0 ≤ (CropIt.cropOf size cropArea).tl.y :=
+  CropIt.cropOf_tl_nonneg size cropArea
+
+/-- `row_skip = size.width.saturating_sub(crop.width)`: the crop is at most as wide as the area
+unless it is zero-height (then nothing is yielded). The exception is real — `intersection`
+returns a zero-sized operand unchanged — and was a `u32` underflow panic of checked builds before
+the repair 0e0d76a (witness in corpus/C03.ops). -/
+theorem cropped_iter_row_skip (size : Sz) (cropArea : Rect) :
+    (CropIt.cropOf size cropArea).size.w ≤ size.w ∨ (CropIt.cropOf size cropArea).size.h = 0 :=
+  CropIt.cropOf_w_le size cropArea
+
+example : (CropIt.cropOf ⟨1, 1⟩ ⟨⟨0, 0⟩, ⟨2, 0⟩⟩).size.w = 2 := by decide
+
 /-! ### The trait defaults set exactly the row-major points of the area paired with the stream -/
 
 /-- Row-major numbering of `Rectangle::points()`: point number `j * w + i` is `top_left + (i, j)`. -/
@@ -300,7 +316,7 @@ example : (lowerStack ⟨⟨-3, -2⟩, ⟨7, 5⟩⟩
     .fillContiguous ⟨⟨-1, -1⟩, ⟨3, 2⟩⟩ [5, 6, 7] := by decide
 
 -- [V] colour streams are finite lists; arbitrary `IntoIterator`s (infinite like `repeat`, non-fused, side-effecting) and the laziness of the real iterator chain (how many colours are pulled, and when) are outside the model: carried by correspondence + oracle only
--- [V] the colour map `f` of a colour-converted target is the real `Into` impl between the two colour types (the harness uses its own colour types with `c -> 3c+k+1`; the embedded-graphics conversions are C13's subject): carried by correspondence + oracle only
+-- [V] the colour map `f` of a colour-converted target is the real `Into` impl between the two colour types (the correspondence runs own colour types with `c -> 3c+k+1` and the real `BinaryColor -> Rgb565`; the other embedded-graphics conversions are C13's subject): carried by correspondence + oracle only
 -- [V] `i32` overflow of translated coordinates / `u32 -> i32` saturation (excluded by the decidable guards `Rect.Ok`, `Call.Ok`, `stackOk`; totality at display scale is C08's subject): carried by correspondence + oracle only
 -- [V] error propagation through the adapters (`Result` of the parent call is returned unchanged; C04's subject): carried by correspondence + oracle only
 
